@@ -106,6 +106,47 @@ def make(targets, timeout=1500, keep_going=False):
     return out.returncode == 0, out.stdout + out.stderr
 
 
+HASHES = os.path.join(COQ, ".built_hashes.json")
+
+
+def _sha(path):
+    import hashlib
+    with open(path, "rb") as f:
+        return hashlib.sha256(f.read()).hexdigest()
+
+
+def invalidate_stale_objects():
+    """make decides by modification time; a .v restored or copied with an OLD time stamp (rsync -a, a backup, a seeded run
+    followed by a restore) would leave a newer .vo compiled from other text in place.  Every .vo is therefore tied to the
+    sha256 of the source it was compiled from, and removed when the source text differs."""
+    try:
+        hashes = json.load(open(HASHES))
+    except (OSError, ValueError):
+        hashes = {}
+    removed = []
+    for f in coq_project_files():
+        src = os.path.join(COQ, f)
+        vo = src + "o"
+        if os.path.exists(vo) and hashes.get(f) != _sha(src):
+            for ext in ("o", "ok", "os"):
+                with contextlib.suppress(FileNotFoundError):
+                    os.remove(src + ext)
+            removed.append(f)
+    return removed
+
+
+def record_object_hashes():
+    hashes = {}
+    for f in coq_project_files():
+        src = os.path.join(COQ, f)
+        if os.path.exists(src + "o"):
+            hashes[f] = _sha(src)
+    tmp = HASHES + ".tmp%d" % os.getpid()
+    with open(tmp, "w") as fh:
+        json.dump(hashes, fh)
+    os.replace(tmp, HASHES)
+
+
 def model_targets():
     return [f[:-2] + ".vo" for f in coq_project_files() if f.startswith("Model/")]
 
@@ -116,6 +157,7 @@ def build_for(prop):
     with coq_lock():
         rep = run_translator()
         write_coq_project()
+        invalidate_stale_objects()
         m_ok, m_log = make(model_targets())
         target = "Properties/%s.vo" % prop
         # force re-check output capture: Print Assumptions text is only emitted when compiled,
@@ -141,6 +183,7 @@ def build_for(prop):
             p_text = p_log
             with contextlib.suppress(FileNotFoundError):
                 os.remove(side)
+        record_object_hashes()
     theorems = property_theorems(prop)
     return {
         "translator": rep,
